@@ -17,6 +17,7 @@ package main
 // Not modelled: writes to a local struct through a pointer handed to a callee.
 
 import (
+	"fmt"
 	"go/token"
 	"go/types"
 	"strconv"
@@ -48,6 +49,91 @@ type depQuery struct {
 	intra bool
 	// bind: parameters of a helper analysed in the context of one call site
 	bind map[*ssa.Parameter]ssa.Value
+	// stop: values at which the slice ends (treated as leaves)
+	stop func(v ssa.Value) bool
+	// collectFn/collect: summary mode, the parameters of collectFn are leaves that are reported with their access path
+	collectFn *ssa.Function
+	collect   func(prm *ssa.Parameter, path []int)
+}
+
+// paramUse: result #idx of a function depends on parameter #idx (restricted to the access path, nil = all of it).
+type paramUse struct {
+	idx  int
+	path []int
+}
+
+var (
+	paramUseMemo = map[string][]paramUse{}
+	paramUseBusy = map[string]bool{}
+)
+
+// paramUses: which parameters (and which parts of them) result #idx of a repository function is computed from.
+// ok is false when the summary could not be completed (recursion, budget); the caller then assumes all arguments.
+func (q *depQuery) paramUses(callee *ssa.Function, idx int, path []int) ([]paramUse, bool) {
+	key := fmt.Sprintf("%p|%d|%s", callee, idx, pathKey(path))
+	if q.stop == nil {
+		if u, ok := paramUseMemo[key]; ok {
+			return u, true
+		}
+	}
+	if paramUseBusy[key] {
+		return nil, false
+	}
+	paramUseBusy[key] = true
+	defer delete(paramUseBusy, key)
+	var uses []paramUse
+	seen := map[string]bool{}
+	cq := &depQuery{p: q.p, target: func(ssa.Value) bool { return false }, memo: map[dkey]int{}, budget: 200000,
+		noParams: true, exploreAll: true, stop: q.stop, collectFn: callee}
+	cq.collect = func(prm *ssa.Parameter, pp []int) {
+		for i, x := range callee.Params {
+			if x == prm {
+				k := fmt.Sprintf("%d|%s", i, pathKey(pp))
+				if !seen[k] {
+					seen[k] = true
+					uses = append(uses, paramUse{i, append([]int{}, pp...)})
+				}
+			}
+		}
+	}
+	before := depExhausted
+	found := false
+	for _, b := range callee.Blocks {
+		if ret, ok := b.Instrs[len(b.Instrs)-1].(*ssa.Return); ok && idx < len(ret.Results) {
+			found = true
+			cq.dep(ret.Results[idx], path, 0)
+		}
+	}
+	if !found || cq.budget < 0 || depExhausted != before {
+		depExhausted = before
+		return nil, false
+	}
+	if q.stop == nil {
+		paramUseMemo[key] = uses
+	}
+	return uses, true
+}
+
+// callArgs: the dependence of a call result on the arguments of the call. For a repository function with a
+// body only the arguments (and the parts of them) that the result is computed from are followed.
+func (q *depQuery) callArgs(c *ssa.Call, idx int, path []int, depth int) bool {
+	cc := c.Common()
+	if callee := cc.StaticCallee(); callee != nil && !q.intra && q.p.isRepoFunc(callee) && len(callee.Blocks) > 0 && len(callee.FreeVars) == 0 {
+		if uses, ok := q.paramUses(callee, idx, path); ok {
+			for _, u := range uses {
+				if u.idx < len(cc.Args) && q.dep(cc.Args[u.idx], u.path, depth+1) {
+					return true
+				}
+			}
+			return false
+		}
+	}
+	for _, a := range cc.Args {
+		if q.dep(a, nil, depth+1) {
+			return true
+		}
+	}
+	return cc.IsInvoke() && q.dep(cc.Value, nil, depth+1)
 }
 
 func newDepQuery(p *Program, target func(v ssa.Value) bool) *depQuery {
@@ -360,10 +446,17 @@ func (q *depQuery) compute(v ssa.Value, path []int, depth int) bool {
 	if q.target(v) {
 		return true
 	}
+	if q.stop != nil && q.stop(v) {
+		return false
+	}
 	switch x := v.(type) {
 	case *ssa.Const, *ssa.Global, *ssa.Function, *ssa.Builtin:
 		return false
 	case *ssa.Parameter:
+		if q.collectFn != nil && x.Parent() == q.collectFn {
+			q.collect(x, path)
+			return false
+		}
 		if a, ok := q.bind[x]; ok && depth < 35 {
 			return q.dep(a, path, depth+1)
 		}
@@ -487,13 +580,7 @@ func (q *depQuery) compute(v ssa.Value, path []int, depth int) bool {
 	case *ssa.TypeAssert:
 		return q.dep(x.X, path, depth+1)
 	case *ssa.Call:
-		cc := x.Common()
-		for _, a := range cc.Args {
-			if q.dep(a, nil, depth+1) {
-				return true
-			}
-		}
-		if cc.IsInvoke() && q.dep(cc.Value, nil, depth+1) {
+		if q.callArgs(x, 0, path, depth) {
 			return true
 		}
 		if q.receiverState(x, depth) {
@@ -502,13 +589,7 @@ func (q *depQuery) compute(v ssa.Value, path []int, depth int) bool {
 		return q.calleeResults(x, 0, path, depth)
 	case *ssa.Extract:
 		if c, ok := x.Tuple.(*ssa.Call); ok {
-			cc := c.Common()
-			for _, a := range cc.Args {
-				if q.dep(a, nil, depth+1) {
-					return true
-				}
-			}
-			if cc.IsInvoke() && q.dep(cc.Value, nil, depth+1) {
+			if q.callArgs(c, x.Index, path, depth) {
 				return true
 			}
 			if q.receiverState(c, depth) {
@@ -646,7 +727,7 @@ func (q *depQuery) dependsInCallee(v ssa.Value, path []int, depth int) bool {
 		return q.dep(v, path, depth)
 	}
 	if q.np == nil {
-		q.np = &depQuery{p: q.p, target: q.target, memo: map[dkey]int{}, budget: q.budget, noParams: true, exploreAll: q.exploreAll}
+		q.np = &depQuery{p: q.p, target: q.target, memo: map[dkey]int{}, budget: q.budget, noParams: true, exploreAll: q.exploreAll, stop: q.stop}
 	}
 	q.np.budget = q.budget
 	r := q.np.dep(v, path, depth)
@@ -683,6 +764,17 @@ func sliceVisit(p *Program, v ssa.Value, local bool, visit func(ssa.Value)) {
 	q := newDepQuery(p, func(x ssa.Value) bool { visit(x); return false })
 	q.exploreAll = true
 	q.noParams = local
+	q.budget = 200000
+	q.depends(v, 0)
+}
+
+// sliceVisitUntil is sliceVisit with leaves chosen by the caller: the slice is not continued behind a
+// value for which stop answers true (the value itself is visited).
+func sliceVisitUntil(p *Program, v ssa.Value, local bool, visit func(ssa.Value), stop func(ssa.Value) bool) {
+	q := newDepQuery(p, func(x ssa.Value) bool { visit(x); return false })
+	q.exploreAll = true
+	q.noParams = local
+	q.stop = stop
 	q.budget = 200000
 	q.depends(v, 0)
 }
